@@ -167,6 +167,15 @@ theorem server_causal (E : PS.Env) (cancel wr w : Option Nat) (hw : PS.wrWrite w
       PS.helloMsg Gen.CaProtocolReadableStore :: (PS.serveMsgs E cancel w ms).1 ++ more :=
   PS.server_causal E cancel wr w hw f hp ms hsz tail
 
+/-- a chunk reply without storage bytes is refused whatever the id.  (That is what becomes of an
+    object that decodes to NO data: the library's `Compress` maps nothing to nothing.  The chunk of
+    zero bytes is therefore not transported by the casync protocol — outside `ZstdOk`, and outside
+    what any index made by desync refers to; reproduction: harness/repro/protoempty.) -/
+theorem empty_reply_refused (H : Bytes → Bytes) (dec : Bytes → Option Bytes) (id label rest : Bytes) (f : UInt64)
+    (a : Nat) (hl : label.length = 32) :
+    (PS.clientReply H dec id ⟨writeMessage (chunkMessage label f []) ++ rest, a⟩).1 = .fail .invalid :=
+  PS.empty_reply_refused H dec id label rest f a hl
+
 /-- `Initialize` sends and receives concurrently: both orders of the two goroutines give the same
     connection state and the same result -/
 theorem initialize_orders_agree (flags : UInt64) (c : PS.Conn) : PS.initializeSR flags c = PS.initializeRS flags c :=
